@@ -333,6 +333,20 @@ func gen(seed uint64, tier string) {
 		emit(c.l, c.p)
 		emit(geom.MultiLineString{c.l}, c.p)
 	}
+	// networks: members that meet at end points (two routes between the same junctions, branches)
+	big := geom.Polygon{{{X: 0.5, Y: 0.5}, {X: 10.5, Y: 0.5}, {X: 10.5, Y: 10.5}, {X: 0.5, Y: 10.5}, {X: 0.5, Y: 0.5}}}
+	band := geom.Polygon{{{X: 0.5, Y: 3.5}, {X: 10.5, Y: 3.5}, {X: 10.5, Y: 6.5}, {X: 0.5, Y: 6.5}, {X: 0.5, Y: 3.5}}}
+	low := geom.Polygon{{{X: 3.5, Y: 0.5}, {X: 6.5, Y: 0.5}, {X: 6.5, Y: 3.5}, {X: 3.5, Y: 3.5}, {X: 3.5, Y: 0.5}}} // only the lower route enters
+	ra := geom.LineString{{X: 2, Y: 5}, {X: 5, Y: 8}, {X: 8, Y: 5}}
+	rb := geom.LineString{{X: 2, Y: 5}, {X: 5, Y: 2}, {X: 8, Y: 5}}
+	rbr := geom.LineString{{X: 8, Y: 5}, {X: 5, Y: 2}, {X: 2, Y: 5}}
+	rc := geom.LineString{{X: 2, Y: 5}, {X: 5, Y: 2}, {X: 6, Y: 3}, {X: 8, Y: 5}}
+	rd := geom.LineString{{X: 8, Y: 5}, {X: 9, Y: 9}}
+	for _, pg := range []geom.Geom{big, band, low, &geom.Bounds{Min: geom.Point{X: 0.5, Y: 0.5}, Max: geom.Point{X: 10.5, Y: 10.5}}} {
+		for _, ml := range []geom.MultiLineString{{ra, rb}, {rb, ra}, {ra, rbr}, {ra, rc}, {rc, ra}, {ra, rd}, {ra, rb, rd}} {
+			emit(ml, pg)
+		}
+	}
 	// dyadic scale families of the TestClip figure (absolute thresholds) and corner nicks
 	for _, k := range []int{-10, -20, -24, -30, 20} {
 		f := math.Ldexp(1, k)
@@ -412,6 +426,15 @@ func makeLine(r *vproto.Rng, P shapes.Shape, style int, multi bool) geom.Geom {
 	members := 1
 	if multi {
 		members = r.Range(1, 4)
+		if r.Intn(2) == 0 {
+			if net := networkLines(r, P, style); net != nil {
+				ml := geom.MultiLineString{}
+				for _, p := range net {
+					ml = append(ml, toLS(p))
+				}
+				return ml
+			}
+		}
 	}
 	var paths [][]ipt
 	for m := 0; m < members; m++ {
@@ -450,6 +473,119 @@ func makeLine(r *vproto.Rng, P shapes.Shape, style int, multi bool) geom.Geom {
 		return ml
 	}
 	return toLS(paths[0])
+}
+
+// contactOK: segments e of path p1 and f of path p2 are disjoint or meet exactly in a common end
+// point of both paths.
+func contactOK(a, b, c, d ipt, ends1, ends2 [2]ipt) bool {
+	if !shapes.Meet(a, b, c, d) {
+		return true
+	}
+	isEnd := func(v ipt, e [2]ipt) bool { return v == e[0] || v == e[1] }
+	for _, ev := range [][2]ipt{{a, b}, {b, a}} {
+		for _, fv := range [][2]ipt{{c, d}, {d, c}} {
+			v, x, w, y := ev[0], ev[1], fv[0], fv[1]
+			if v == w && isEnd(v, ends1) && isEnd(v, ends2) && !shapes.OnSeg(c, d, x) && !shapes.OnSeg(a, b, y) {
+				return true
+			}
+		}
+	}
+	return false
+}
+
+func networkOK(p1, p2 []ipt) bool {
+	e1 := [2]ipt{p1[0], p1[len(p1)-1]}
+	e2 := [2]ipt{p2[0], p2[len(p2)-1]}
+	for i := 0; i+1 < len(p1); i++ {
+		for j := 0; j+1 < len(p2); j++ {
+			if !contactOK(p1[i], p1[i+1], p2[j], p2[j+1], e1, e2) {
+				return false
+			}
+		}
+	}
+	return true
+}
+
+// networkLines: a multi-line string whose members meet at end points only: two routes between the
+// same two junctions (same or different vertex counts, same or opposite direction), or a branch
+// that starts at an end of the first member; optionally a third member branching off.
+func networkLines(r *vproto.Rng, P shapes.Shape, style int) [][]ipt {
+	rs := P.Rings()
+	mn, mx, _ := P.BBox()
+	for try := 0; try < 30; try++ {
+		p1 := genPath(r, style, rs, mn, mx)
+		if len(p1) < 3 || len(p1) > 8 || !gpPath(p1, rs) {
+			continue
+		}
+		variant := r.Intn(4)
+		second := func(from, to ipt, k int, free bool) []ipt {
+			for t2 := 0; t2 < 40; t2++ {
+				p2 := []ipt{from}
+				ok := true
+				for len(p2) < k+1 && ok {
+					placed := false
+					for t3 := 0; t3 < 30 && !placed; t3++ {
+						q := ipt{X: ev(r, mn.X-6, mx.X+6), Y: ev(r, mn.Y-6, mx.Y+6)}
+						cand := append(append([]ipt{}, p2...), q)
+						if canAppend(p2, q) && q != to && networkOK(p1, cand) && gpPath(cand, rs) {
+							p2 = cand
+							placed = true
+						}
+					}
+					ok = placed
+				}
+				if !ok {
+					continue
+				}
+				if free {
+					return p2
+				}
+				cand := append(append([]ipt{}, p2...), to)
+				if canAppend(p2, to) && networkOK(p1, cand) && gpPath(cand, rs) {
+					return cand
+				}
+			}
+			return nil
+		}
+		a, b := p1[0], p1[len(p1)-1]
+		var p2 []ipt
+		switch variant {
+		case 0: // two routes, same vertex count
+			p2 = second(a, b, len(p1)-2, false)
+		case 1: // two routes, different vertex counts
+			p2 = second(a, b, len(p1)-2+r.Range(1, 2), false)
+		case 2: // the second route runs the other way
+			p2 = second(b, a, len(p1)-2, false)
+		default: // a branch from one end
+			from := a
+			if r.Bool() {
+				from = b
+			}
+			p2 = second(from, ipt{X: 1 << 40, Y: 1 << 40}, r.Range(1, 3), true)
+		}
+		if p2 == nil || len(p2) < 2 {
+			continue
+		}
+		paths := [][]ipt{p1, p2}
+		if r.Intn(3) == 0 { // a third member branching off the far end of the second
+			from := p2[len(p2)-1]
+			save := p1
+			_ = save
+			for t4 := 0; t4 < 20; t4++ {
+				q := ipt{X: ev(r, mn.X-6, mx.X+6), Y: ev(r, mn.Y-6, mx.Y+6)}
+				p3 := []ipt{from, q}
+				if q != from && networkOK(p1, p3) && networkOK(p2, p3) && gpPath(p3, rs) {
+					paths = append(paths, p3)
+					break
+				}
+			}
+		}
+		if r.Bool() { // which member comes first matters to order-dependent code
+			paths[0], paths[1] = paths[1], paths[0]
+		}
+		return paths
+	}
+	return nil
 }
 
 // nicks: at ordinary scale, a diagonal that only cuts d off a corner of a rectangle (chord d*sqrt 2,
